@@ -223,6 +223,11 @@ class SA(np.ndarray):
             for i in range(1, len(cells)):
                 acc = ite(SymBool(k.t == i), cells[i], acc)
             return acc
+        if isinstance(key, np.ndarray) and key.dtype == object and key.shape == self.shape:
+            # boolean mask with symbolic cells: the selection (and the result's length) depends on the
+            # values, so the mask is realised cell by cell (forks)
+            mask = np.array([bool(c) for c in key.view(np.ndarray).reshape(-1)], dtype=bool).reshape(key.shape)
+            return super().__getitem__(mask)
         return super().__getitem__(key)
 
     def __setitem__(self, key, value):
